@@ -1,7 +1,7 @@
 use std::path::Path;
 
 use super::{Position, SaveOptions, TextAttribute};
-use crate::{AttributedChar, Buffer, BufferFeatures, EngineResult, OutputFormat, TextPane};
+use crate::{AttributedChar, Buffer, BufferFeatures, EngineResult, IceMode, OutputFormat, TextPane};
 
 #[derive(Default)]
 pub(super) struct Bin {}
@@ -40,6 +40,10 @@ impl OutputFormat for Bin {
         result.is_terminal_buffer = false;
         result.file_name = Some(file_name.into());
         result.set_sauce(sauce_opt, true);
+        // bit 7 of an attribute byte is either blink or (with the SAUCE 'non blink' flag) a high background - never both
+        if !matches!(result.ice_mode, IceMode::Ice) {
+            result.ice_mode = IceMode::Blink;
+        }
         let mut o = 0;
         let mut pos = Position::default();
         loop {
